@@ -1,6 +1,7 @@
 package schemagen
 
 import (
+	"context"
 	"fmt"
 	"reflect"
 	"sort"
@@ -8,6 +9,7 @@ import (
 	"time"
 
 	"gorm.io/gorm"
+	"gorm.io/gorm/clause"
 
 	"verif/internal/testdb"
 )
@@ -21,20 +23,55 @@ type Env struct {
 	Now       time.Time // what Config.NowFunc returns
 	// ExtraColumnsOK: the table may hold columns the model does not know (C20: v1 records read after migrate(v2))
 	ExtraColumnsOK bool
+	// Handle: "" / "fresh", "session", "context", "tx" (Create runs inside db.Transaction)
+	Handle string
+	shared *gorm.DB
+	tx     *gorm.DB
 }
 
-// T returns a fresh chain bound to the table (no model).
-func (e *Env) T() *gorm.DB { return e.DB.DB.Table(e.Table) }
+// Handles: how the handle every operation starts from is obtained.
+var Handles = []string{"fresh", "session", "context", "tx"}
 
-// MT returns a fresh chain with the model and the table.
-func (e *Env) MT() *gorm.DB { return e.DB.DB.Model(reflect.New(e.M.Type).Interface()).Table(e.Table) }
+type ctxKey struct{}
+
+func (e *Env) base() *gorm.DB {
+	if e.tx != nil {
+		return e.tx
+	}
+	if e.Handle == "context" {
+		return e.DB.DB.WithContext(context.WithValue(context.Background(), ctxKey{}, "c03"))
+	}
+	return e.DB.DB
+}
+
+// T returns a chain bound to the table (no model): a fresh chain per call, or
+// (Handle "session") one Table(t).Session(&gorm.Session{}) handle used for every operation.
+func (e *Env) T() *gorm.DB {
+	if e.Handle == "session" && e.tx == nil {
+		if e.shared == nil {
+			e.shared = e.DB.DB.Table(e.Table).Session(&gorm.Session{})
+		}
+		return e.shared
+	}
+	return e.base().Table(e.Table)
+}
+
+// MT returns a chain with the model and the table.
+func (e *Env) MT() *gorm.DB {
+	if e.Handle == "session" && e.tx == nil {
+		return e.T().Model(reflect.New(e.M.Type).Interface())
+	}
+	return e.base().Model(reflect.New(e.M.Type).Interface()).Table(e.Table)
+}
 
 // Migrate runs AutoMigrate for the model on the table.
-func (e *Env) Migrate() error { return e.T().AutoMigrate(reflect.New(e.M.Type).Interface()) }
+func (e *Env) Migrate() error {
+	return e.DB.DB.Table(e.Table).AutoMigrate(reflect.New(e.M.Type).Interface())
+}
 
 // CreatePaths of the grammar. Struct paths first, then map paths.
 var (
-	StructPaths = []string{"value", "slice", "ptrslice", "array", "batches", "batches-ptr"}
+	StructPaths = []string{"value", "slice", "ptrslice", "array", "batches", "batches-ptr", "slice-byvalue", "ptrslice-byvalue"}
 	MapPaths    = []string{"map", "map-ptr", "map-model", "maps", "maps-ptr", "maps-model", "maps-ptr-model"}
 )
 
@@ -43,6 +80,12 @@ type CreatePlan struct {
 	Path       string
 	Batch      int  // CreateInBatches size
 	KeysByName bool // map paths with a model: top-level leaves are keyed by Go field name
+	// SessionBatch: struct slice paths go through Session(&gorm.Session{CreateBatchSize: n}) (0 = no)
+	SessionBatch int
+	// Returning: "" none; "all" Clauses(clause.Returning{}) (single struct only); "columns" Clauses(clause.Returning{Columns: every column})
+	Returning string
+	// ExprValues: map paths give some integer / text values as clause.Expr{SQL: "(? + 0)", Vars: …}
+	ExprValues bool
 }
 
 func (p CreatePlan) String() string {
@@ -52,6 +95,15 @@ func (p CreatePlan) String() string {
 	}
 	if p.KeysByName {
 		s += "+fieldnames"
+	}
+	if p.SessionBatch > 0 {
+		s += fmt.Sprintf("+Session{CreateBatchSize:%d}", p.SessionBatch)
+	}
+	if p.Returning != "" {
+		s += "+Returning{" + p.Returning + "}"
+	}
+	if p.ExprValues {
+		s += "+exprvalues"
 	}
 	return s
 }
@@ -90,27 +142,58 @@ func (e *Env) Create(rs *Records, p CreatePlan) (c *Created, err error) {
 			err = fmt.Errorf("Create panicked: %v", r)
 		}
 	}()
+	if e.Handle == "tx" && e.tx == nil {
+		err = e.DB.DB.Transaction(func(tx *gorm.DB) error {
+			e.tx = tx
+			defer func() { e.tx = nil }()
+			var ierr error
+			c, ierr = e.Create(rs, p)
+			return ierr
+		})
+		return c, err
+	}
 	T := e.M.Type
 	n := len(rs.Vals)
+	// chain: the handle a struct create starts from
+	chain := func() *gorm.DB {
+		db := e.T()
+		if p.SessionBatch > 0 {
+			db = db.Session(&gorm.Session{CreateBatchSize: p.SessionBatch})
+		}
+		switch p.Returning {
+		case "all":
+			db = db.Clauses(clause.Returning{})
+		case "columns":
+			var cols []clause.Column
+			for _, l := range e.M.Leaves {
+				cols = append(cols, clause.Column{Name: l.DBName})
+			}
+			db = db.Clauses(clause.Returning{Columns: cols})
+		}
+		return db
+	}
 	switch p.Path {
 	case "value":
 		for _, v := range rs.Vals {
-			if err := e.T().Create(v.Addr().Interface()).Error; err != nil {
+			if err := chain().Create(v.Addr().Interface()).Error; err != nil {
 				return c, err
 			}
 			c.Mem = append(c.Mem, v)
 		}
-	case "slice", "batches":
+	case "slice", "batches", "slice-byvalue":
 		sl := reflect.New(reflect.SliceOf(T))
 		sl.Elem().Set(reflect.MakeSlice(reflect.SliceOf(T), n, n))
 		for i, v := range rs.Vals {
 			sl.Elem().Index(i).Set(v)
 		}
 		var tx *gorm.DB
-		if p.Path == "slice" {
-			tx = e.T().Create(sl.Interface())
-		} else {
-			tx = e.T().CreateInBatches(sl.Interface(), p.Batch)
+		switch p.Path {
+		case "slice":
+			tx = chain().Create(sl.Interface())
+		case "slice-byvalue":
+			tx = chain().Create(sl.Elem().Interface())
+		default:
+			tx = chain().CreateInBatches(sl.Interface(), p.Batch)
 		}
 		if tx.Error != nil {
 			return c, tx.Error
@@ -121,7 +204,7 @@ func (e *Env) Create(rs *Records, p CreatePlan) (c *Created, err error) {
 		for i := 0; i < n; i++ {
 			c.Mem = append(c.Mem, sl.Elem().Index(i))
 		}
-	case "ptrslice", "batches-ptr":
+	case "ptrslice", "batches-ptr", "ptrslice-byvalue":
 		pt := reflect.PointerTo(T)
 		sl := reflect.New(reflect.SliceOf(pt))
 		sl.Elem().Set(reflect.MakeSlice(reflect.SliceOf(pt), n, n))
@@ -129,10 +212,13 @@ func (e *Env) Create(rs *Records, p CreatePlan) (c *Created, err error) {
 			sl.Elem().Index(i).Set(v.Addr())
 		}
 		var tx *gorm.DB
-		if p.Path == "ptrslice" {
-			tx = e.T().Create(sl.Interface())
-		} else {
-			tx = e.T().CreateInBatches(sl.Interface(), p.Batch)
+		switch p.Path {
+		case "ptrslice":
+			tx = chain().Create(sl.Interface())
+		case "ptrslice-byvalue":
+			tx = chain().Create(sl.Elem().Interface())
+		default:
+			tx = chain().CreateInBatches(sl.Interface(), p.Batch)
 		}
 		if tx.Error != nil {
 			return c, tx.Error
@@ -145,7 +231,7 @@ func (e *Env) Create(rs *Records, p CreatePlan) (c *Created, err error) {
 		for i, v := range rs.Vals {
 			arr.Elem().Index(i).Set(v)
 		}
-		if err := e.T().Create(arr.Interface()).Error; err != nil {
+		if err := chain().Create(arr.Interface()).Error; err != nil {
 			return c, err
 		}
 		for i := 0; i < n; i++ {
@@ -168,6 +254,15 @@ func (e *Env) Create(rs *Records, p CreatePlan) (c *Created, err error) {
 				}
 				if fv, ok := l.Get(v); ok {
 					m[key] = l.Kind.DBValue(fv)
+					// documented "create from SQL expression": every third eligible value travels as clause.Expr
+					if p.ExprValues && (i+j)%3 == 0 && !l.Spec.PrimaryKey && !l.Spec.Marker && m[key] != nil {
+						switch l.Kind.Family {
+						case FInt, FUint:
+							m[key] = clause.Expr{SQL: "(? + 0)", Vars: []interface{}{m[key]}}
+						case FString:
+							m[key] = clause.Expr{SQL: "(? || '')", Vars: []interface{}{m[key]}}
+						}
+					}
 				} else {
 					m[key] = nil
 				}
@@ -279,7 +374,8 @@ func (e *Env) markerOf(i int, c *Created) int64 {
 func quote(col string) string { return "`" + col + "`" }
 
 // ReadPaths of the grammar.
-var ReadPaths = []string{"find", "find-ptr", "first", "take", "first-key", "first-inline", "take-map", "take-map-model", "first-map-model", "find-maps", "find-maps-model"}
+var ReadPaths = []string{"find", "find-ptr", "first", "take", "last", "first-key", "first-inline", "first-pk-arg", "find-pk-list", "first-nilptr",
+	"find-array", "find-presized", "scan", "rows-scanrows", "take-map", "take-map-byvalue", "take-map-model", "first-map-model", "find-maps", "find-maps-model"}
 
 // ModelMapRead reports whether the read path loads into maps with the model named.
 func ModelMapRead(path string) bool {
@@ -518,16 +614,19 @@ func (e *Env) Check(c *Created, reads []string) error {
 					return err
 				}
 			}
-		case "first", "take":
+		case "first", "take", "last":
 			// consecutive single-row loads; every loaded record is compared right away and
 			// once more after all later rows were loaded (nothing loaded later may change it)
 			var dests []reflect.Value
 			for i := 0; i < c.N; i++ {
 				dest := reflect.New(M.Type)
 				var err error
-				if path == "first" {
+				switch path {
+				case "first":
 					err = e.T().Where(byMarker, e.markerOf(i, c)).First(dest.Interface()).Error
-				} else {
+				case "last":
+					err = e.T().Where(byMarker, e.markerOf(i, c)).Last(dest.Interface()).Error
+				default:
 					err = e.T().Where(byMarker, e.markerOf(i, c)).Take(dest.Interface()).Error
 				}
 				if err != nil {
@@ -562,6 +661,122 @@ func (e *Env) Check(c *Created, reads []string) error {
 					return fmt.Errorf("%s: record %d: %v", path, i, err)
 				}
 				if err := cmpStruct(path, i, dest.Elem()); err != nil {
+					return err
+				}
+			}
+		case "first-pk-arg", "find-pk-list":
+			// the key given as inline argument: First(&v, 10) / Find(&vs, []int64{1, 2, 3}) (single integer key)
+			if len(keys) != 1 || (keys[0].Kind.Family != FInt && keys[0].Kind.Family != FUint) {
+				continue
+			}
+			var ids []int64
+			for i := 0; i < c.N; i++ {
+				v, _ := keys[0].Get(stored(i))
+				ids = append(ids, keys[0].Kind.DBValue(v).(int64))
+			}
+			if path == "first-pk-arg" {
+				for i := 0; i < c.N; i++ {
+					dest := reflect.New(M.Type)
+					if err := e.T().First(dest.Interface(), ids[i]).Error; err != nil {
+						return fmt.Errorf("%s: record %d: %v", path, i, err)
+					}
+					if err := cmpStruct(path, i, dest.Elem()); err != nil {
+						return err
+					}
+				}
+			} else {
+				out := reflect.New(reflect.SliceOf(M.Type))
+				if err := e.T().Order(quote(ml.DBName)).Find(out.Interface(), ids).Error; err != nil {
+					return fmt.Errorf("%s: %v", path, err)
+				}
+				if out.Elem().Len() != c.N {
+					return fmt.Errorf("%s: %d rows for %d keys", path, out.Elem().Len(), c.N)
+				}
+				for i := 0; i < c.N; i++ {
+					if err := cmpStruct(path, i, out.Elem().Index(i)); err != nil {
+						return err
+					}
+				}
+			}
+		case "first-nilptr":
+			// var p *T; First(&p)
+			for i := 0; i < c.N; i++ {
+				dest := reflect.New(reflect.PointerTo(M.Type))
+				if err := e.T().Where(byMarker, e.markerOf(i, c)).First(dest.Interface()).Error; err != nil {
+					return fmt.Errorf("%s: record %d: %v", path, i, err)
+				}
+				if dest.Elem().IsNil() {
+					return fmt.Errorf("%s: record %d: the pointer is still nil after First", path, i)
+				}
+				if err := cmpStruct(path, i, dest.Elem().Elem()); err != nil {
+					return err
+				}
+			}
+		case "find-array", "find-presized", "scan":
+			var out reflect.Value
+			switch path {
+			case "find-array":
+				out = reflect.New(reflect.ArrayOf(c.N, M.Type))
+			case "find-presized":
+				// a slice the caller allocated and used before: capacity kept, old elements gone
+				out = reflect.New(reflect.SliceOf(M.Type))
+				out.Elem().Set(reflect.MakeSlice(reflect.SliceOf(M.Type), 2, c.N+3))
+				if !c.Plan.IsMap() {
+					out.Elem().Index(0).Set(c.Mem[c.N-1])
+					out.Elem().Index(1).Set(c.Mem[0])
+				}
+			default:
+				out = reflect.New(reflect.SliceOf(M.Type))
+			}
+			tx := e.T().Where(between, lo, hi).Order(quote(ml.DBName))
+			var err error
+			if path == "scan" {
+				err = tx.Scan(out.Interface()).Error
+			} else {
+				err = tx.Find(out.Interface()).Error
+			}
+			if err != nil {
+				return fmt.Errorf("%s: %v", path, err)
+			}
+			if out.Elem().Len() != c.N {
+				return fmt.Errorf("%s: %d rows for %d records", path, out.Elem().Len(), c.N)
+			}
+			for i := 0; i < c.N; i++ {
+				if err := cmpStruct(path, i, out.Elem().Index(i)); err != nil {
+					return err
+				}
+			}
+		case "rows-scanrows":
+			rows, err := e.T().Where(between, lo, hi).Order(quote(ml.DBName)).Rows()
+			if err != nil {
+				return fmt.Errorf("%s: %v", path, err)
+			}
+			i := 0
+			dest := reflect.New(M.Type) // one destination reused for every row, as in the documented loop
+			for rows.Next() {
+				if err := e.T().ScanRows(rows, dest.Interface()); err != nil {
+					rows.Close()
+					return fmt.Errorf("%s: row %d: %v", path, i, err)
+				}
+				if i < c.N {
+					if err := cmpStruct(path, i, dest.Elem()); err != nil {
+						rows.Close()
+						return err
+					}
+				}
+				i++
+			}
+			rows.Close()
+			if i != c.N {
+				return fmt.Errorf("%s: %d rows for %d records", path, i, c.N)
+			}
+		case "take-map-byvalue":
+			for i := 0; i < c.N; i++ {
+				m := map[string]interface{}{}
+				if err := e.T().Where(byMarker, e.markerOf(i, c)).Take(m).Error; err != nil {
+					return fmt.Errorf("%s: record %d: %v", path, i, err)
+				}
+				if err := cmpMap(path, i, m); err != nil {
 					return err
 				}
 			}
